@@ -79,6 +79,9 @@ def events(tier, depth_left, engine="pickle"):
     ev.append(["sample", [[2, 10], [1, 20]], "clash"])
     # generators that are objects with a state of their own, handed to a new
     # Sampler for every run
+    # a Sampler that is handed a table it already holds in memory (full_df=)
+    # before any file exists
+    ev.append(["sample_seeded", [[2, 10]]])
     ev.append(["sample_obj", 1])
     ev.append(["sample_obj", 2])
     # the numpy random-choice path: one long-lived Sampler whose choices are
@@ -154,6 +157,7 @@ class World:
         kind = ev[0]
         before = list(self.rows)
         new_rows = None
+        prev_last = self.last
         if kind != "other":
             self.last = None  # (set to the acting sampler below)
         if kind == "other":
@@ -194,6 +198,30 @@ class World:
                 s[0], 30 if over == "clash" else s[1],
                 s[2] if over == "c" else None,
                 4 if over == "k" else None) for s in seq]
+        elif kind == "sample_seeded":
+            import pandas as pd
+
+            if self.rows or os.path.exists(self.path):
+                self.last = prev_last
+                return []
+            seq = ev[1]
+            seed_rows = [self.expect_row(1, 10), self.expect_row(2, 20)]
+            r = xyz.Runner(self.f, var_names="out", constants={"k": 0})
+            ss = xyz.Sampler(r, data_name=self.path, engine=self.cfg["engine"],
+                             default_combos={a: _ns["scripted"](a)
+                                             for a in ("b", "a")},
+                             full_df=pd.DataFrame(seed_rows))
+            builtins._xv_script = {"a": [x[0] for x in seq],
+                                   "b": [x[1] for x in seq]}
+            try:
+                last = ss.sample_combos(len(seq), verbosity=0)
+            except Exception as e:
+                return [("raised:" + type(e).__name__,
+                         "sample_combos (Sampler given full_df) raised %r"
+                         % e)]
+            self.s = self.new_sampler()
+            before = seed_rows
+            new_rows = [self.expect_row(x[0], x[1]) for x in seq]
         elif kind == "sample_obj":
             n = ev[1]
             # (the reference model counts the draws itself)
